@@ -585,6 +585,25 @@ class G:
             self.emit("eq %s %s" % (x, y))
             self.emit("add %s %d" % (y, self.val_near(keys)))
             self.emit("eq %s %s" % (x, y))
+        # range queries whose START lies in an unpopulated chunk and whose END chunk is the first populated one / has populated
+        # chunks in between, with every order of the low 16 bits of start, end and the stored values
+        for kind in ("A", "R", "B"):
+            x = self.fresh("cq")
+            self.emit("new %s" % x)
+            for k in (3, 9, 12, 13):
+                base = k * CH
+                if kind == "A":
+                    self.emit("of %s %s" % (x, " ".join(str(base + v) for v in (5, 17, 300, 40000, 65535))))
+                elif kind == "R":
+                    self.emit("addr %s %d %d" % (x, base + 5, base + 18)); self.emit("addr %s %d %d" % (x, base + 40000, base + 65536)); self.emit("opt %s" % x)
+                else:
+                    self.emit("addstride %s %d 3 9000" % (x, base + 5))
+            for s0, e0 in ((0x12, 0x30012), (8 * CH + 65531, 9 * CH + 6), (1 * CH + 300, 3 * CH + 18), (2 * CH + 65535, 3 * CH + 6), (5 * CH + 17, 9 * CH + 65536),
+                           (4 * CH + 40001, 12 * CH + 400), (10 * CH + 6, 12 * CH + 6), (10 * CH + 6, 13 * CH + 5), (0, 3 * CH + 18), (11 * CH, 12 * CH + 17),
+                           (3 * CH + 6, 9 * CH + 6), (14 * CH + 1, 20 * CH), (13 * CH + 65535, 14 * CH + 9), (3 * CH + 17, 3 * CH + 18)):
+                self.emit("cir %s %d %d" % (x, s0, e0))
+                self.emit("iwi %s %d %d" % (x, s0, e0))
+            self.count("query:fixed-range-start-in-gap")
         self.emit("new e0")
         for q in ("card e0", "empty e0", "min e0", "max e0", "sel e0 0", "rank e0 5", "cir e0 0 4294967296", "iwi e0 0 4294967296", "toarr e0"):
             self.emit(q)
@@ -611,12 +630,66 @@ class G:
             for _ in range(nq):
                 t = self.val_near(keys)
                 self.emit("%s %s %d" % (r.choice(["nv", "pv", "nav", "pav"]), x, t))
+        self.nbr_fixed_episodes()
         self.emit("new e1")
         for q in ("nv e1 0", "pv e1 5", "nav e1 0", "pav e1 4294967295", "nav e1 4294967295"):
             self.emit(q)
         self.emit("addr e1 0 4294967296")
         for q in ("nv e1 0", "pv e1 5", "nav e1 0", "pav e1 4294967295", "nav e1 4294967295", "pav e1 0"):
             self.emit(q)
+
+    def nbr_fixed_episodes(self):
+        """deterministic neighbour-query cases: long solid / hollow stretches of a BITMAP chunk probed at every word distance,
+        and walks across completely full chunks in each of the three stored forms"""
+        r = self.r
+        # (a) bitmap chunk (evens elsewhere keep it a bitmap container) with a solid stretch and a hollow stretch
+        for k, lo, hi in ((7, 12810, 14000), (0, 3, 1500), (65535, 64000, 65536), (9, 0, 1100)):
+            x = self.fresh("nb")
+            self.emit("new %s" % x)
+            self.emit("addstride %s %d 2 %d" % (x, k * CH + 20000, 15000))       # 15000 scattered values: bitmap container
+            self.emit("addr %s %d %d" % (x, k * CH + lo, k * CH + hi))
+            self.emit("remr %s %d %d" % (x, k * CH + 50000, k * CH + 51300))     # hollow stretch inside the evens
+            if k == 9:
+                self.emit("addr %s %d %d" % (x, 8 * CH + 65000, 9 * CH))
+            for base, n in ((lo, hi - lo), (50000, 1300)):
+                for t in range(base - 2, base + n + 66, 64):
+                    for d in (0, 1, 63):
+                        v = k * CH + t + d
+                        if 0 <= v < U32:
+                            for q in ("pav", "nav", "pv", "nv"):
+                                self.emit("%s %s %d" % (q, x, v))
+            self.count("nbr:fixed-word-distances")
+        # (b) a completely full chunk stored as bitmap / run / after in-place xor, between a chunk solid to its upper edge and a
+        #     chunk that starts with a solid prefix; also as the last chunk 0xFFFF
+        for k in (19, 20, 0xB0C4, 0xFFFD, 0xFFFE):
+            for how in ("topup", "run", "ixor", "dense"):
+                x = self.fresh("nb")
+                self.emit("new %s" % x)
+                self.emit("addr %s %d %d" % (x, k * CH + 51234, (k + 1) * CH))
+                f = (k + 1) * CH
+                if how == "topup":
+                    self.emit("addstride %s %d 2 32768" % (x, f))
+                    self.emit("addr %s %d %d" % (x, f, f + CH))
+                elif how == "run":
+                    self.emit("addr %s %d %d" % (x, f, f + CH))
+                elif how == "ixor":
+                    y = self.fresh("nb")
+                    self.emit("new %s" % y)
+                    self.emit("addstride %s %d 2 32768" % (x, f))
+                    self.emit("addstride %s %d 2 32768" % (y, f + 1))
+                    self.emit("ixor %s %s" % (x, y))
+                else:
+                    self.emit("addstride %s %d 2 32768" % (x, f))
+                    self.emit("addstride %s %d 2 32768" % (x, f + 1))
+                if k + 2 <= 0xFFFF:
+                    self.emit("addr %s %d %d" % (x, f + CH, f + CH + 321))
+                    self.emit("addstride %s %d 7 50" % (x, f + CH + 1000))
+                for t in (k * CH + 51234, k * CH + 65535, f, f + 1, f + 65535, k * CH + 51233, k * CH + 60000):
+                    if t < U32:
+                        self.emit("nav %s %d" % (x, t))
+                        self.emit("pav %s %d" % (x, min(U32 - 1, t + CH)))
+                        self.emit("nv %s %d" % (x, t))
+                self.count("nbr:fixed-full-chunk-" + how)
 
     def suite_xform(self, nb):
         """C16: AddOffset / static Flip"""
@@ -662,6 +735,30 @@ class G:
             self.emit("wf %s" % y)
             self.emit("ser %s" % y)
             self.count("xform:offset-join")
+
+    def sflip_edit_episode(self):
+        """static Flip over ranges that cover several whole chunks ABSENT from the operand, then point / range edits of the result
+        inside those chunks: each created chunk must be its own container"""
+        for vals in ([5, 3 * CH + 7, 10 * CH + 3], []):
+            x = self.fresh("sf")
+            self.emit("new %s" % x)
+            if vals:
+                self.emit("of %s %s" % (x, " ".join(map(str, vals))))
+            for lo, hi in ((100, 9 * CH), (0, 4 * CH), (CH, 3 * CH), (12 * CH, 15 * CH + 9)):
+                y = self.fresh("sf")
+                self.emit("sflip %s %s %d %d" % (y, x, lo, hi))
+                self.emit("wf %s" % y)
+                k0 = (lo + CH - 1) // CH
+                self.emit("rem %s %d" % (y, k0 * CH + 50))
+                self.emit("card %s" % y)
+                self.emit("has %s %d" % (y, (k0 + 1) * CH + 50))
+                self.emit("remr %s %d %d" % (y, (k0 + 1) * CH + 10, (k0 + 1) * CH + 20))
+                self.emit("card %s" % y)
+                self.emit("crem %s %d" % (y, k0 * CH + 15))
+                self.emit("dig %s" % y)
+                self.emit("wf %s" % y)
+                self.emit("dig %s" % x)
+                self.count("xform:sflip-then-edit")
 
     def suite_dense(self, nb):
         """C16: dense conversions"""
@@ -788,6 +885,42 @@ def _sizeb(g, scale):
         g.emit("size %s" % other)
         g.emit("wf %s" % other)
         g.count("sizeb:cow-opt-ior")
+    # chunks with very many short runs: the run form stops being the smallest one at 2056 runs (2+4*runs >= 8224); every way of
+    # reaching such a chunk (RunOptimize, in-place and static union of two run chunks lying one beyond the other, offset join)
+    for na, nb in ((2000, 2000), (1026, 1026), (1030, 1025), (2055, 1), (2047, 3), (1500, 555)):
+        a, b, c = g.fresh(), g.fresh(), g.fresh()
+        for nm, base, n in ((a, 0, na), (b, 33000, nb)):
+            g.emit("new %s" % nm)
+            for off in (0, 1, 2):
+                g.emit("addstride %s %d 15 %d" % (nm, base + off, n))
+            g.emit("opt %s" % nm)
+            g.emit("size %s" % nm)
+        g.emit("or %s %s %s" % (c, a, b))
+        g.emit("size %s" % c); g.emit("wf %s" % c)
+        c = g.fresh()
+        g.emit("clone %s %s" % (c, b))
+        g.emit("ior %s %s" % (c, a))          # operand wholly below the receiver
+        g.emit("size %s" % c)
+        c = g.fresh()
+        g.emit("off %s %s %d" % (c, a, 16384))
+        g.emit("size %s" % c)
+        g.emit("ior %s %s" % (a, b))          # operand wholly beyond the receiver
+        g.emit("size %s" % a); g.emit("wf %s" % a)
+        g.emit("opt %s" % a)
+        g.emit("size %s" % a)
+        g.count("sizeb:many-short-runs-union")
+    for n in (2046, 2047, 2048, 2049, 2050, 2053, 2055, 2056, 2057):
+        a = g.fresh()
+        g.emit("new %s" % a)
+        for off in (0, 1, 2):
+            g.emit("addstride %s %d 16 %d" % (a, off, n))
+        g.emit("size %s" % a)
+        g.emit("opt %s" % a)
+        g.emit("size %s" % a); g.emit("wf %s" % a)
+        c = g.fresh()
+        g.emit("off %s %s %d" % (c, a, 32768))
+        g.emit("size %s" % c)
+        g.count("sizeb:runs-at-2048..2056")
     for _ in range(int(14 * scale)):
         x = g.fresh()
         g.emit("new %s" % x)
@@ -805,6 +938,7 @@ def _sizeb(g, scale):
 @suite("xform")
 def _xform(g, scale):
     g.offset_join_episode()
+    g.sflip_edit_episode()
     g.suite_xform(int(25 * scale))
 
 
